@@ -771,21 +771,28 @@ func (x *Exec) unmodelledMods(args []Value, st *State) []modEntry {
 	var out []modEntry
 	for _, a := range args {
 		p, ok := a.(*PtrV)
-		if !ok || p.Obj == nil || len(p.Path) != 0 {
+		if !ok || p.Obj == nil || len(p.Path) != 0 || p.AltC != nil {
 			continue
 		}
-		sv, ok := st.h[p.Obj].(*StructV)
-		if !ok {
-			continue
-		}
-		for i := range sv.F {
-			if x.ld.unmodelled(p.Obj, []PE{{Field: i}}) {
-				switch sv.F[i].(type) {
-				case *Term, *StructV:
-					out = append(out, modEntry{obj: p.Obj, path: []PE{{Field: i}}})
+		var walk func(v Value, path []PE)
+		walk = func(v Value, path []PE) {
+			sv, ok := v.(*StructV)
+			if !ok {
+				return
+			}
+			for i := range sv.F {
+				np := append(append([]PE{}, path...), PE{Field: i})
+				if x.ld.unmodelled(p.Obj, np) {
+					switch sv.F[i].(type) {
+					case *Term, *StructV:
+						out = append(out, modEntry{obj: p.Obj, path: np})
+					}
+					continue
 				}
+				walk(sv.F[i], np)
 			}
 		}
+		walk(st.h[p.Obj], nil)
 	}
 	return out
 }
